@@ -1,4 +1,4 @@
-/* C07, unit run_all_logic: the REAL s_run_all (and aws_task_run) over ABSTRACT containers - unbounded, by loop contracts.
+/* C07, unit run_all_logic: the REAL s_run_all over ABSTRACT containers - unbounded, by loop contracts.
  * See contracts/task_scheduler.h, section "s_run_all: decision logic over ABSTRACT containers" for the model.
  *
  * The five container operations that move tasks are routed (by #define, the library text is unchanged) to the client
